@@ -47,7 +47,41 @@ theorem mem_keys_del {k2 u : Key} {l : List (Key × Val)} (hu : u ∈ l.map (·.
 
 namespace Alru
 
-/-! ### kept: fewer than `maxsize` distinct other keys -/
+/-! ### the keys a history USES: those on which a call returned a value -/
+
+/-- the key a call contributes to the recency order: the key of a call that returned a value (hit or fresh) -/
+def usedKey (mk : Call → Option Key) (bd : Call → Option (List Nat)) (st : St) (op : Op) : List Key :=
+  match (step mk bd st op).2, mk op.c with
+  | .ok _, some k => [k]
+  | _, _ => []
+
+/-- the keys on which the calls of a history returned a value, in call order -/
+def usedKeys (mk : Call → Option Key) (bd : Call → Option (List Nat)) (st : St) : List Op → List Key
+  | [] => []
+  | op :: ops => usedKey mk bd st op ++ usedKeys mk bd (step mk bd st op).1 ops
+
+/-- every used key is the key of one of the calls -/
+theorem usedKeys_subset (mk : Call → Option Key) (bd : Call → Option (List Nat)) (st : St) (ops : List Op) :
+    ∀ k ∈ usedKeys mk bd st ops, k ∈ ops.filterMap fun o => mk o.c := by
+  induction ops generalizing st with
+  | nil => intro k hk; simp [usedKeys] at hk
+  | cons op ops ih =>
+    intro k hk
+    simp only [usedKeys, List.mem_append] at hk
+    rcases hk with hk | hk
+    · have : mk op.c = some k := by
+        unfold usedKey at hk
+        split at hk
+        · rename_i h2; simp at hk; rw [h2, hk]
+        · simp at hk
+      simp [this]
+    · have := ih _ k hk
+      rw [List.filterMap_cons]
+      split
+      · exact this
+      · exact List.mem_cons_of_mem _ this
+
+/-! ### kept: fewer than `maxsize` distinct other keys used -/
 
 /-- `k ↦ v` sits in the cache and every entry used more recently has its key in `D` -/
 def Kept (k : Key) (v : Val) (D : List Key) (items : List (Key × Val)) : Prop :=
@@ -55,7 +89,7 @@ def Kept (k : Key) (v : Val) (D : List Key) (items : List (Key × Val)) : Prop :
 
 theorem kept_step (mk : Call → Option Key) (bd : Call → Option (List Nat)) (st : St) (op : Op) (k : Key) (v : Val)
     (D : List Key) (hnd : KeysNodup st.cache.items)
-    (hD : ∀ k2, mk op.c = some k2 → k2 ≠ k → k2 ∈ D) (hl : D.length + 1 ≤ st.cache.cap)
+    (hD : ∀ k2 ∈ usedKey mk bd st op, k2 ≠ k → k2 ∈ D) (hl : D.length + 1 ≤ st.cache.cap)
     (h : Kept k v D st.cache.items) :
     Kept k v D (step mk bd st op).1.cache.items := by
   obtain ⟨pre, post, hi, hp⟩ := h
@@ -80,7 +114,8 @@ theorem kept_step (mk : Call → Option Key) (bd : Call → Option (List Nat)) (
           simp only [List.mem_append, List.mem_singleton] at hpm
           rcases hpm with hpm | hpm
           · exact hp p (List.mem_filter.mp hpm).1
-          · subst hpm; exact hD k2 hmk (fun e => hkk e.symm)
+          · subst hpm
+            exact hD k2 (by simp [usedKey, step_hit hmk hlk, hmk]) (fun e => hkk e.symm)
     | none =>
       cases hb : bd op.c with
       | none => rw [step_bind_error hmk hlk hb]; exact ⟨pre, post, hi, hp⟩
@@ -94,7 +129,7 @@ theorem kept_step (mk : Call → Option Key) (bd : Call → Option (List Nat)) (
             intro e
             have := hall (k, v) (by rw [hi]; simp)
             exact this e.symm
-          have hk2D : k2 ∈ D := hD k2 hmk hkk
+          have hk2D : k2 ∈ D := hD k2 (by simp [usedKey, step_store hmk hlk hb hra, hmk]) hkk
           have hpost' : ∀ p ∈ post ++ [(k2, (⟨st.runs + 1, b⟩ : Val))], p.1 ∈ D := by
             intro p hpm
             simp only [List.mem_append, List.mem_singleton] at hpm
@@ -137,7 +172,7 @@ theorem kept_step (mk : Call → Option Key) (bd : Call → Option (List Nat)) (
 
 theorem kept_run (mk : Call → Option Key) (bd : Call → Option (List Nat)) (cap : Nat) (hcap : 1 ≤ cap) (k : Key) (v : Val)
     (D : List Key) (ops : List Op) (w : Watch) (st : St) (hrel : Rel cap w st)
-    (hD : ∀ o ∈ ops, ∀ k2, mk o.c = some k2 → k2 ≠ k → k2 ∈ D) (hl : D.length + 1 ≤ cap)
+    (hD : ∀ k2 ∈ usedKeys mk bd st ops, k2 ≠ k → k2 ∈ D) (hl : D.length + 1 ≤ cap)
     (h : Kept k v D st.cache.items) :
     (finalState mk bd st ops).cache.items.lookup k = some v := by
   induction ops generalizing w st with
@@ -148,39 +183,30 @@ theorem kept_run (mk : Call → Option Key) (bd : Call → Option (List Nat)) (c
     exact lookup_mid_of_nodup pre post (hi ▸ hrel.nodup)
   | cons op ops ih =>
     obtain ⟨w', _, h2⟩ := rel_step mk mk bd cap hcap w st op hrel rfl
-    have hs := kept_step mk bd st op k v D hrel.nodup (hD op List.mem_cons_self) (by rw [hrel.capEq]; exact hl) h
+    have hs := kept_step mk bd st op k v D hrel.nodup
+      (fun k2 hk2 => hD k2 (by simp only [usedKeys, List.mem_append]; exact Or.inl hk2)) (by rw [hrel.capEq]; exact hl) h
     simp only [finalState]
-    exact ih w' _ h2 (fun o ho => hD o (List.mem_cons_of_mem _ ho)) (by simpa [observe] using hs)
+    exact ih w' _ h2 (fun k2 hk2 => hD k2 (by simp only [usedKeys, List.mem_append]; exact Or.inr (by simpa [observe] using hk2)))
+      (by simpa [observe] using hs)
 
 /-! ### evicted: `maxsize` distinct other keys used since -/
-
-/-- the key a call contributes to the recency order: the key of a call that returned a value (hit or fresh) -/
-def usedKey (mk : Call → Option Key) (bd : Call → Option (List Nat)) (st : St) (op : Op) : List Key :=
-  match (step mk bd st op).2, mk op.c with
-  | .ok _, some k => [k]
-  | _, _ => []
-
-/-- the keys on which the calls of a history returned a value, in call order -/
-def usedKeys (mk : Call → Option Key) (bd : Call → Option (List Nat)) (st : St) : List Op → List Key
-  | [] => []
-  | op :: ops => usedKey mk bd st op ++ usedKeys mk bd (step mk bd st op).1 ops
 
 /-- `k` is not cached, or every key of `U` sits behind it in the recency order -/
 def Gone (k : Key) (U : List Key) (items : List (Key × Val)) : Prop :=
   items.lookup k = none ∨ ∃ pre v post, items = pre ++ (k, v) :: post ∧ ∀ u ∈ U, u ∈ post.map (·.1)
 
 theorem gone_step (mk : Call → Option Key) (bd : Call → Option (List Nat)) (st : St) (op : Op) (k : Key) (U : List Key)
-    (hnd : KeysNodup st.cache.items) (hnk : mk op.c ≠ some k) (h : Gone k U st.cache.items) :
+    (hnd : KeysNodup st.cache.items) (hnk : k ∉ usedKey mk bd st op) (h : Gone k U st.cache.items) :
     Gone k (U ++ usedKey mk bd st op) (step mk bd st op).1.cache.items := by
   cases hmk : mk op.c with
   | none =>
     have hu : usedKey mk bd st op = [] := by simp [usedKey, step_key_error hmk]
     rw [hu, List.append_nil, step_key_error hmk]; exact h
   | some k2 =>
-    have hkk : k2 ≠ k := by intro e; rw [e] at hmk; exact hnk hmk
     cases hlk : st.cache.items.lookup k2 with
     | some v2 =>
       have hu : usedKey mk bd st op = [k2] := by simp [usedKey, step_hit hmk hlk, hmk]
+      have hkk : k2 ≠ k := by intro e; apply hnk; rw [hu]; simp [e]
       rw [hu, step_hit hmk hlk]
       simp only []
       rcases h with h | ⟨pre, v, post, hi, hU⟩
@@ -214,6 +240,7 @@ theorem gone_step (mk : Call → Option Key) (bd : Call → Option (List Nat)) (
           rw [hu, List.append_nil, step_raise hmk hlk hb hra]; exact h
         | false =>
           have hu : usedKey mk bd st op = [k2] := by simp [usedKey, step_store hmk hlk hb hra, hmk]
+          have hkk : k2 ≠ k := by intro e; apply hnk; rw [hu]; simp [e]
           rw [hu, step_store hmk hlk hb hra]
           simp only [LRU.setItem, hlk, Option.isSome_none, Bool.false_eq_true, if_false]
           rcases h with h | ⟨pre, v, post, hi, hU⟩
@@ -264,15 +291,15 @@ theorem gone_step (mk : Call → Option Key) (bd : Call → Option (List Nat)) (
 
 theorem gone_run (mk : Call → Option Key) (bd : Call → Option (List Nat)) (cap : Nat) (hcap : 1 ≤ cap) (k : Key)
     (ops : List Op) (w : Watch) (st : St) (U : List Key) (hrel : Rel cap w st)
-    (hnk : ∀ o ∈ ops, mk o.c ≠ some k) (h : Gone k U st.cache.items) :
+    (hnk : k ∉ usedKeys mk bd st ops) (h : Gone k U st.cache.items) :
     Gone k (U ++ usedKeys mk bd st ops) (finalState mk bd st ops).cache.items := by
   induction ops generalizing w st U with
   | nil => simpa [usedKeys, finalState] using h
   | cons op ops ih =>
     obtain ⟨w', _, h2⟩ := rel_step mk mk bd cap hcap w st op hrel rfl
-    have hs := gone_step mk bd st op k U hrel.nodup (hnk op List.mem_cons_self) h
-    have := ih w' (step mk bd st op).1 (U ++ usedKey mk bd st op) (by simpa [observe] using h2)
-      (fun o ho => hnk o (List.mem_cons_of_mem _ ho)) hs
+    simp only [usedKeys, List.mem_append, not_or] at hnk
+    have hs := gone_step mk bd st op k U hrel.nodup hnk.1 h
+    have := ih w' (step mk bd st op).1 (U ++ usedKey mk bd st op) (by simpa [observe] using h2) hnk.2 hs
     simp only [usedKeys, finalState, ← List.append_assoc]
     simpa [observe] using this
 
